@@ -200,6 +200,7 @@ def cases(tier, seed):
                              mode=mode, cons=cons, options=opts, sigma=float(10 ** rng.uniform(-2, 0.7)),
                              max_fun_evals=int(rng.choice([80, 120, 160, 200])))
         out.append({"kind": "run", "spec": spec})
+    out += C.option_variation_slice("C19", tier, seed, kind="run")
     return out
 
 
